@@ -376,6 +376,7 @@ pub fn check(case: &Case, out: &mut CaseOut) {
     let mut stop_at: Option<usize> = None; // malformed response: classification result is not asserted from here on
     let mut t = 0u64;
     let mut dup_seen = false;
+    let mut dup_markers: Vec<(String, &'static str)> = vec![];
     for (i, r) in case.responses.iter().enumerate() {
         t += r.gap;
         let marker = format!("m{i}");
@@ -435,6 +436,7 @@ pub fn check(case: &Case, out: &mut CaseOut) {
                 // a response for a tag that already has its session (retransmitted 2xx, late 18x):
                 // what the application sees is not asserted, only that nothing breaks
                 dup_seen = true;
+                dup_markers.push((marker.clone(), if upgraded.contains(&tag) { "after-early-upgrade" } else { "direct" }));
                 want.push(Want { marker, t, recipient: None, kinds: vec![Kind::Session, Kind::EarlyCreated, Kind::Provisional], optional: true, idx: i });
             } else if r.code < 200 {
                 want.push(Want { marker, t, recipient: None, kinds: vec![Kind::EarlyCreated], optional: false, idx: i });
@@ -542,6 +544,20 @@ pub fn check(case: &Case, out: &mut CaseOut) {
                     out.fail("c13.session/route-set", format!("{what}: route set {:?}, expected the response's Record-Route {:?}", d.routes, want_routes));
                 }
             }
+        }
+    }
+    // a tag that already has its session must not get a second session / early dialog: the second Dialog would
+    // share the dialog key with the live one (and unregister it when dropped)
+    for (m, how) in &dup_markers {
+        let idx: usize = m[1..].parse().unwrap_or(usize::MAX);
+        if !asserted(idx) {
+            continue;
+        }
+        if let Some(e) = obs.events.iter().find(|e| e.marker.as_deref() == Some(m.as_str()) && matches!(e.kind, Kind::Session | Kind::EarlyCreated)) {
+            out.fail(
+                format!("c13.duplicate/second-dialog-for-tag:{how}"),
+                format!("response {m} for a tag that already has a session was reported as {:?}: a second dialog with the same identifiers", e.kind),
+            );
         }
     }
     // responses that must NOT surface (orphans after the transaction ended)
